@@ -1,6 +1,7 @@
 SPECIFICATION Spec
 CONSTANTS
   Configs <- FineQuick
+  Fix = FALSE
   EmitGen = FALSE
   Seed = 0
 INVARIANTS NeverGone
